@@ -6,6 +6,7 @@
 //!   vh drive  <module> --seed S --n N --out F  impl -> spec (records a trace)
 mod certchain;
 mod cms;
+mod cmsmsg;
 mod common;
 mod pki;
 mod der;
@@ -47,6 +48,8 @@ fn main() {
         ("replay", "manifest") => manifest::replay(rest),
         ("replay", "certchain") => certchain::replay(rest),
         ("replay", "sigobj") => sigobj::replay(rest),
+        ("replay", "cmsmsg") => cmsmsg::replay(rest),
+        ("drive", "cmsmsg") => cmsmsg::drive(rest),
         ("drive", "sigobj") => sigobj::drive(rest),
         ("drive", "certchain") => certchain::drive(rest),
         ("drive", "manifest") => manifest::drive(rest),
